@@ -17,7 +17,7 @@ patch = open("%s/mutant%s.diff" % (out, n)).read()
 demo = open("%s/demo%s_test.go" % (out, n)).read()
 pkg = meta["demo_package_dir"].strip("./")
 test = meta["demo_test_name"]
-res = {"id": sid, "breaks": [prop.rstrip("b")], "summary": meta["summary"], "needs_to_manifest": meta["needs_to_manifest"],
+res = {"id": sid, "breaks": [prop.rstrip("bcdefg")], "summary": meta["summary"], "needs_to_manifest": meta["needs_to_manifest"],
        "demo_package_dir": pkg, "demo_test_name": test, "source": "sub-agent mut-%s, mutant %s" % (prop, n)}
 clean()
 r = sh("git apply --recount %s/mutant%s.diff" % (out, n))
